@@ -147,3 +147,74 @@ Proof. induction l as [|[k1 v1] l IH]; intros m H; cbn; [exact H|]. apply IH. ap
 
 Lemma sorted_keys_lt p m : ssorted (p :: m) -> Forall (fun q => ltb (fst p) (fst q) = true) m.
 Proof. intros H. apply ssorted_inv in H as [_ H]. exact H. Qed.
+
+(* ================= merge = overlay on sorted lists ================= *)
+Lemma merge_nil_l l2 : merge [] l2 = l2.
+Proof. destruct l2; reflexivity. Qed.
+Lemma merge_nil_r l1 : merge l1 [] = l1.
+Proof. destruct l1 as [|[k v] r]; reflexivity. Qed.
+Lemma merge_cons k1 v1 r1 k2 v2 r2 :
+  merge ((k1, v1) :: r1) ((k2, v2) :: r2) =
+  if ltb k1 k2 then (k1, v1) :: merge r1 ((k2, v2) :: r2)
+  else if ltb k2 k1 then (k2, v2) :: merge ((k1, v1) :: r1) r2
+  else (k1, v1) :: merge r1 r2.
+Proof. reflexivity. Qed.
+
+Lemma merge_eq_nil l1 l2 : merge l1 l2 = [] -> l1 = [] /\ l2 = [].
+Proof.
+  destruct l1 as [|[a b] r]; destruct l2 as [|[a' b'] r']; try (split; reflexivity).
+  - rewrite merge_nil_l. discriminate.
+  - rewrite merge_nil_r. discriminate.
+  - rewrite merge_cons. destruct (ltb a a'); [discriminate|]. destruct (ltb a' a); discriminate.
+Qed.
+
+Lemma merge_forall (P : kv -> Prop) l1 : forall l2, Forall P l1 -> Forall P l2 -> Forall P (merge l1 l2).
+Proof.
+  induction l1 as [|[k1 v1] r1 IH1]; intros l2 H1 H2; [rewrite merge_nil_l; exact H2|].
+  induction l2 as [|[k2 v2] r2 IH2]; [rewrite merge_nil_r; exact H1|].
+  rewrite merge_cons. inversion H1; subst. inversion H2; subst.
+  destruct (ltb k1 k2); [constructor; [assumption|apply IH1; assumption]|].
+  destruct (ltb k2 k1); [constructor; [assumption|apply IH2; assumption]|].
+  constructor; [assumption|apply IH1; assumption].
+Qed.
+
+Lemma merge_sorted l1 : forall l2, ssorted l1 -> ssorted l2 -> ssorted (merge l1 l2).
+Proof.
+  induction l1 as [|[k1 v1] r1 IH1]; intros l2 H1 H2; [rewrite merge_nil_l; exact H2|].
+  induction l2 as [|[k2 v2] r2 IH2]; [rewrite merge_nil_r; exact H1|].
+  rewrite merge_cons. apply ssorted_inv in H1 as [S1 F1]. pose proof H2 as H2'. apply ssorted_inv in H2 as [S2 F2].
+  destruct (ltb k1 k2) eqn:E1.
+  - constructor; [apply IH1; assumption|]. apply merge_forall; [exact F1|].
+    constructor; [exact E1|]. eapply Forall_impl; [|exact F2]. intros a Ha. unfold klt in *. cbn in *. eapply ltb_trans; eassumption.
+  - destruct (ltb k2 k1) eqn:E2.
+    + constructor; [apply IH2; assumption|]. apply merge_forall; [|exact F2].
+      constructor; [exact E2|]. eapply Forall_impl; [|exact F1]. intros a Ha. unfold klt in *. cbn in *. eapply ltb_trans; eassumption.
+    + pose proof (ltb_total _ _ E1 E2). subst. constructor; [apply IH1; assumption|].
+      apply merge_forall; [exact F1|exact F2].
+Qed.
+
+Lemma lookup_merge k l1 : forall l2, ssorted l1 -> ssorted l2 ->
+  lookup k (merge l1 l2) = match lookup k l1 with Some v => Some v | None => lookup k l2 end.
+Proof.
+  induction l1 as [|[k1 v1] r1 IH1]; intros l2 H1 H2; [rewrite merge_nil_l; reflexivity|].
+  induction l2 as [|[k2 v2] r2 IH2]; [rewrite merge_nil_r; cbn [lookup]; destruct (beqb k k1); [reflexivity|]; destruct (lookup k r1); reflexivity|].
+  rewrite merge_cons. pose proof H1 as H1'. pose proof H2 as H2'.
+  apply ssorted_inv in H1 as [S1 F1]. apply ssorted_inv in H2 as [S2 F2].
+  destruct (ltb k1 k2) eqn:E1.
+  - cbn [lookup]. destruct (beqb k k1) eqn:Ek; [reflexivity|]. rewrite IH1 by assumption. reflexivity.
+  - destruct (ltb k2 k1) eqn:E2.
+    + cbn [lookup]. destruct (beqb k k2) eqn:Ek.
+      * apply beqb_eq in Ek. subst. rewrite (ltb_neq _ _ E2).
+        rewrite lookup_all_gt; [reflexivity|].
+        eapply Forall_impl; [|exact F1]. intros a Ha. unfold klt in *. cbn in *. eapply ltb_trans; eassumption.
+      * rewrite IH2 by assumption. cbn [lookup]. reflexivity.
+    + pose proof (ltb_total _ _ E1 E2). subst. cbn [lookup]. destruct (beqb k k2) eqn:Ek; [reflexivity|].
+      rewrite IH1 by assumption. reflexivity.
+Qed.
+
+Lemma merge_overlay l1 l2 : ssorted l1 -> ssorted l2 -> merge l1 l2 = overlay l1 l2.
+Proof.
+  intros H1 H2. apply sorted_ext; [apply merge_sorted; assumption|apply overlay_sorted; assumption|].
+  intros k. rewrite lookup_merge by assumption. rewrite lookup_overlay. reflexivity.
+Qed.
+
